@@ -1,6 +1,7 @@
 package main
 
 import (
+	"sync/atomic"
 	"runtime"
 	"os"
 	"errors"
@@ -49,6 +50,7 @@ type fakeWS struct {
 	dlErr     bool
 	slowClose time.Duration // Close fails the pending reads at once but returns only after this long
 	echoClose bool // the peer answers a close frame with a close frame
+	abnOnClose bool // … or reacts to it by dropping the connection (the reader sees close 1006)
 	log       func(string)
 }
 
@@ -82,8 +84,12 @@ func (f *fakeWS) WriteMessage(mt int, data []byte) error {
 	runtime.Gosched()
 	runtime.Gosched()
 	if echo {
+		code := websocket.CloseNormalClosure
+		if f.abnOnClose {
+			code = websocket.CloseAbnormalClosure
+		}
 		select {
-		case f.reads <- readRes{err: &websocket.CloseError{Code: websocket.CloseNormalClosure, Text: "bye"}}:
+		case f.reads <- readRes{err: &websocket.CloseError{Code: code, Text: "bye"}}:
 		default:
 		}
 	}
@@ -226,9 +232,19 @@ type wsFactory struct {
 	conns []*fakeWS
 	next  string // "ok;ok" dial;newconn for the next New()
 	dials int
+	// when set: New() first waits until this many background listeners have finished (the old session's error, if
+	// any, has then been recorded), so that what Reconnect does afterwards does not depend on goroutine timing
+	waitDone int32
+	doneN    *int32
 }
 
 func (f *wsFactory) New() (ext.Conn, error) {
+	if f.waitDone > 0 && f.doneN != nil {
+		for i := 0; i < 2000 && atomic.LoadInt32(f.doneN) < f.waitDone; i++ {
+			time.Sleep(500 * time.Microsecond)
+		}
+		f.waitDone = 0
+	}
 	f.mu.Lock()
 	defer f.mu.Unlock()
 	spec := strings.Split(f.next, ";")
@@ -299,6 +315,8 @@ func runWSeq(args []string) ([]string, string) {
 	c := client.NewWS(client.WSConnectionOptions{Factory: f, ConnectionOptions: ws.ConnectionOptions{CloseDeadline: 200 * time.Millisecond}})
 	r := &wsRun{f: f, c: c, done: make(chan interface{}, 64)}
 	started := make(chan struct{}, 64)
+	var doneN int32
+	f.doneN = &doneN
 	client.VerifAt = func(label string, arg interface{}) {
 		if arg != interface{}(c) {
 			return
@@ -307,6 +325,7 @@ func runWSeq(args []string) ([]string, string) {
 		case "listen.start":
 			started <- struct{}{}
 		case "listen.done":
+			atomic.AddInt32(&doneN, 1)
 			r.done <- arg
 		}
 	}
@@ -358,6 +377,16 @@ func runWSeq(args []string) ([]string, string) {
 			case "REC":
 				had := c.Session() != nil
 				f.next = arg(0) + ";" + arg(1)
+				if arg(2) == "abn" {
+					// the old session's peer reacts to the close frame by dropping the connection: its listener ends
+					// with an error while Reconnect is closing it
+					if cn := r.cur(); cn != nil && had && listening > 0 {
+						cn.mu.Lock()
+						cn.abnOnClose = true
+						cn.mu.Unlock()
+						f.waitDone = atomic.LoadInt32(&doneN) + 1
+					}
+				}
 				err := c.Reconnect()
 				res = resOf(err)
 				if had && listening > 0 {
@@ -425,6 +454,9 @@ func genWsOp(r *Rng) string {
 	case 1:
 		return "DIS"
 	case 2:
+		if r.Chance(15) {
+			return "REC(ok;ok;abn)"
+		}
 		return fmt.Sprintf("REC(%s;%s)", []string{"ok", "ok", "fail"}[r.Intn(3)], []string{"ok", "ok", "ok", "fail"}[r.Intn(4)])
 	case 3, 4:
 		return fmt.Sprintf("LEND(%s)", []string{"err", "abn", "away", "norm"}[r.Intn(4)])
@@ -453,6 +485,10 @@ func init() {
 	suites["wsclient"] = func(o *Out, r *Rng, n int, tier string) {
 		for _, sz := range writerEdgeSizes {
 			o.emit("C17", "WSEQ", "CON(ok;ok)", fmt.Sprintf("SND(%s;-)", pfmOfSize(r, sz)), fmt.Sprintf("RAW(%s;-)", hx(r.Bytes(3))))
+		}
+		// the replaced session's listener ends with an error during a successful Reconnect: the new session starts clean
+		for k := 0; k < 6; k++ {
+			o.emit("C17", "WSEQ", "CON(ok;ok)", fmt.Sprintf("RAW(%s;-)", hx(r.Bytes(3))), "REC(ok;ok;abn)", fmt.Sprintf("RAW(%s;-)", hx(r.Bytes(3))), fmt.Sprintf("SND(%s;-)", pfmOfSize(r, 10)))
 		}
 		for i := 0; i < n; i++ {
 			var args []string
